@@ -10,7 +10,7 @@ EXTENDS PyInt
 CONSTANT Tier          \* 0 = quick, 1 = thorough (TLC's cfg syntax has no negative numbers, so the sets live here)
 \* exponents k and offsets d of the lattice points 2^k + d; shift counts and exponents tried by the laws.
 \* 15, 30, 45 are digit boundaries of BigNum itself, 31/32/63/64 those of the implementation
-Exps == IF Tier = 0 THEN {15, 31, 32, 62, 63, 64, 127} ELSE {14, 15, 16, 30, 31, 32, 45, 62, 63, 64, 65, 127, 128, 190}
+Exps == IF Tier = 0 THEN {15, 31, 63, 64, 127} ELSE {15, 16, 30, 31, 32, 45, 63, 64, 127, 190}
 Deltas == IF Tier = 0 THEN {-1, 0, 1} ELSE {-2, -1, 0, 1, 2}
 ShiftCounts == IF Tier = 0 THEN {0, 1, 15, 31, 63, 64, 100} ELSE {0, 1, 14, 15, 16, 29, 30, 31, 45, 63, 64, 100}
 SmallExps == IF Tier = 0 THEN {2, 5} ELSE {2, 5, 9}
@@ -53,15 +53,14 @@ BitLaws(a, b) ==
   /\ ZAnd(a, b) = ZAnd(b, a) /\ ZOr(a, b) = ZOr(b, a) /\ ZXor(a, b) = ZXor(b, a)
   /\ ZAnd(a, a) = a /\ ZOr(a, a) = a /\ ZXor(a, a) = ZZero
   /\ ZAnd(a, MinusOne) = a /\ ZOr(a, ZZero) = a /\ ZAnd(a, ZInv(a)) = ZZero /\ ZOr(a, ZInv(a)) = MinusOne
-  /\ \A k \in {1, 15, 16, 63, 64} :                                      \* two's complement: a & (2^k - 1) = a mod 2^k
-       ZAnd(a, ZSub(TwoPow(k), ZOne)) = ZDivMod(a, TwoPow(k))[2]
   /\ IsZ(ZAnd(a, b)) /\ IsZ(ZOr(a, b)) /\ IsZ(ZXor(a, b))
 PowLaws(a, b) ==
   /\ ZPow(a, 0) = ZOne /\ ZPow(a, 1) = a /\ ZPow(a, 2) = ZMul(a, a) /\ ZPow(a, 3) = ZMul(a, ZMul(a, a))
   /\ \A e \in SmallExps : ZPow(a, e + 1) = ZMul(ZPow(a, e), a)
   /\ ZIsZero(b) \/ \A e \in SmallExps :                                  \* pow(a, e, b) = (a ** e) % b
        PowModOut(a, ZOfInt(e), b).v = ZDivMod(ZPow(a, e), b)[2]
-  /\ ZIsZero(b) \/ b.s = -1 \/ a.s = -1 \/                               \* pow(a, x + y, b) = pow(a, x, b) * pow(a, y, b) % b, big exponents
+  /\ ZIsZero(b) \/ b.s = -1 \/ a.s = -1 \/ (Tier = 0 /\ (BitLen(a.m) > 32 \/ BitLen(b.m) > 64)) \/
+       \* pow(a, x + y, b) = pow(a, x, b) * pow(a, y, b) % b with big exponents (quick: exponents up to 65 bits, thorough: all)
        LET x == ZAbs(a) y == ZAdd(ZAbs(b), ZOne) IN
        PowModOut(a, ZAdd(x, y), b).v = ZDivMod(ZMul(PowModOut(a, x, b).v, PowModOut(a, y, b).v), b)[2]
 TextLaws(a) ==
@@ -72,13 +71,18 @@ TextLaws(a) ==
   /\ ParseInt(TextOf(a, 2, <<48, 98>>), 2).v = a /\ ParseInt(TextOf(a, 2, <<48, 98>>), 0).v = a
   /\ Len(ToDigits(a.m, 2)) = MaxI(1, BitLen(a.m))
   /\ ToDigits(a.m, 2)[1] = (IF a.m = <<>> THEN 0 ELSE 1)                 \* no leading zero digit
+MaskLaws(a) ==
+  \A k \in {1, 15, 16, 63, 64} :                                         \* two's complement: a & (2^k - 1) = a mod 2^k
+       ZAnd(a, ZSub(TwoPow(k), ZOne)) = ZDivMod(a, TwoPow(k))[2]
 RepLaws(a) ==
   /\ FitsWord(a) <=> (ZCmp(a, WordMin) >= 0 /\ ZCmp(a, WordMax) <= 0)
   /\ IsZ(a)
 
-Laws(a, b) == DivLaws(a, b) /\ RingLaws(a, b) /\ ShiftLaws(a) /\ BitLaws(a, b) /\ PowLaws(a, b) /\ TextLaws(a) /\ RepLaws(a)
+\* the laws about a alone are evaluated once per a (in the pair whose b is zero)
+Laws(a, b) == /\ DivLaws(a, b) /\ RingLaws(a, b) /\ BitLaws(a, b) /\ PowLaws(a, b)
+              /\ ZIsZero(b) => (ShiftLaws(a) /\ MaskLaws(a) /\ TextLaws(a) /\ RepLaws(a))
 \* which conjunct failed (diagnostics)
-Failing(a, b) == <<DivLaws(a, b), RingLaws(a, b), ShiftLaws(a), BitLaws(a, b), PowLaws(a, b), TextLaws(a), RepLaws(a)>>
+Failing(a, b) == <<DivLaws(a, b), RingLaws(a, b), ShiftLaws(a), BitLaws(a, b), PowLaws(a, b), TextLaws(a), RepLaws(a), MaskLaws(a)>>
 
 ASSUME /\ FitsWord(WordMax) /\ FitsWord(WordMin) /\ ~FitsWord(ZAdd(WordMax, ZOne)) /\ ~FitsWord(ZSub(WordMin, ZOne))
        /\ FitsWord(ZMul(Z(1, Sqrt63), Z(1, Sqrt63)))                          \* 3037000499^2 < 2^63 <= 3037000500^2
